@@ -94,13 +94,13 @@ def tlc(spec, cfg, workers=None, simulate=None, depth=None, timeout=600, env=Non
     meta = os.path.join(metaroot or os.path.join(ROOT, "build", "tlc"),
                         "%s-%d-%d" % (os.path.basename(cfg), os.getpid(), int(time.time() * 1000) % 1000000))
     os.makedirs(meta, exist_ok=True)
-    cmd = ["java", "-XX:+UseParallelGC", "-Xmx" + heap]
+    cmd = ["java", "-XX:+UseParallelGC", "-Xmx" + heap, "-Xss16m"]
     if dfs:
         cmd.append("-Dtlc2.tool.queue.IStateQueue=StateDeque")
     if jvm:
         cmd += jvm
     cmd += ["-cp", TLA_CP, "tlc2.TLC", "-metadir", meta, "-config", cfg,
-            "-workers", str(workers or "auto")]
+            "-workers", str(workers or "auto"), "-noGenerateSpecTE"]
     if not deadlock:
         cmd.append("-deadlock")
     if coverage:
@@ -138,7 +138,8 @@ class Ctx:
                     "samples": [], "evaluations": 0, "distinct_nontrivial": 0}
         self.assumptions = []
         self.level = "model_checking"
-        self.out = os.path.join(ROOT, "build", "out", pid)
+        self.alt = REPO != "/repo"      # running against a scratch copy (mutation self-tests)
+        self.out = os.path.join(ROOT, "build", "out", pid + ("-alt" if self.alt else ""))
         shutil.rmtree(self.out, ignore_errors=True)
         os.makedirs(self.out, exist_ok=True)
         self.kf = load_known_findings()
@@ -215,7 +216,9 @@ class Ctx:
                 return False
         if replay_path is None:
             h = hashlib.sha1((signature + (replay_content or text)).encode()).hexdigest()[:12]
-            replay_path = os.path.join(ROOT, "replays", "%s-%s.json" % (self.pid, h))
+            rdir = os.path.join(self.out, "replays") if self.alt else os.path.join(ROOT, "replays")
+            os.makedirs(rdir, exist_ok=True)
+            replay_path = os.path.join(rdir, "%s-%s.json" % (self.pid, h))
             with open(replay_path, "w") as f:
                 f.write(replay_content if replay_content is not None else json.dumps({"signature": signature, "text": text}))
         self.violations.append((signature, replay_path, text))
@@ -233,7 +236,8 @@ class Ctx:
         ev["coverage"].update(self.notes)
         ev["coverage"]["known_findings_hit"] = [k["id"] for k in self.known_hits]
         os.makedirs(os.path.join(ROOT, "evidence"), exist_ok=True)
-        with open(os.path.join(ROOT, "evidence", self.pid + ".json"), "w") as f:
+        evpath = os.path.join(self.out, "evidence.json") if self.alt else os.path.join(ROOT, "evidence", self.pid + ".json")
+        with open(evpath, "w") as f:
             json.dump(ev, f, indent=1, sort_keys=True)
         for k in self.known_hits:
             print("KNOWN-FINDING: property=%s %s" % (self.pid, k["what"]))
